@@ -10,6 +10,7 @@ open scoped List
 #print axioms RdfModel.C01RJ.rdfjson_roundtrip
 #print axioms RdfModel.C01RJ.rdfjson_roundtrip_run
 #print axioms RdfModel.C01RJ.relabel_injective
+#print axioms RdfModel.C01RJ.rdfjson_output_grammatical
 #print axioms RdfModel.C01RJ.rj_no_panic
 #print axioms RdfModel.C01RJ.rj_run_no_panic
 #print axioms RdfModel.C01RJ.rj_no_panic_legacy
